@@ -11,14 +11,18 @@ From Coq Require Import Lia.
    or before any expected field, makes buffer.get report missing data. *)
 Theorem C09a_u16 : forall n k old, (0 < k < 2)%nat -> is_err (decode U16 old (firstn k (enc_u16 n))).
 Proof. exact cut_u16. Qed.
+Print Assumptions C09a_u16.
 Theorem C09a_u32 : forall n k old, (0 < k < 4)%nat -> is_err (decode U32 old (firstn k (enc_u32 n))).
 Proof. exact cut_u32. Qed.
+Print Assumptions C09a_u32.
 Theorem C09a_string : forall s k old, len s < 65536 -> (0 < k < 2 + length s)%nat ->
   is_err (decode Bin old (firstn k (enc_bin s))).
 Proof. exact cut_bin. Qed.
+Print Assumptions C09a_string.
 Theorem C09a_vbint : forall n k old, n < 268435456 -> (0 < k < length (enc_vb n))%nat ->
   is_err (decode Vb old (firstn k (enc_vb n))).
 Proof. exact cut_vb. Qed.
+Print Assumptions C09a_vbint.
 Theorem C09a_userprop : forall kk vv k, len kk < 65536 -> len vv < 65536 ->
   (0 < k < 4 + length kk + length vv)%nat ->
   is_err (dec_userprop (firstn k (enc_bin kk ++ enc_bin vv))).
@@ -26,6 +30,7 @@ Proof. exact cut_userprop. Qed.
 Theorem C09a_nothing_left : forall w old s, derr s = None -> (length (ddata s) <= dpos s)%nat ->
   exists s', get_val w old s = GNo s' /\ derr s' = Some EMissingData.
 Proof. exact get_at_end. Qed.
+Print Assumptions C09a_nothing_left.
 Print Assumptions C09a_userprop.
 
 (* ... and an error, once set by any field, is what UnmarshalBinary
@@ -44,6 +49,7 @@ Print Assumptions C09_error_sticks.
 Theorem C09b_mem : forall a b c d t, cont a = true -> cont b = true -> cont c = true -> cont d = true ->
   rejected (dec_vb (a :: b :: c :: d :: t)).
 Proof. exact dec_vb_five. Qed.
+Print Assumptions C09b_mem.
 Theorem C09b_stream : forall a b c d e rest s,
   cont a = true -> cont b = true -> cont c = true -> cont d = true ->
   sbytes s = a :: b :: c :: d :: e :: rest -> avail 5 s = true ->
@@ -55,10 +61,12 @@ Proof.
   - exact Hav.
   - exists tr. exact E.
 Qed.
+Print Assumptions C09b_stream.
 
 (* (c) a boolean property with a value other than 0 or 1 *)
 Theorem C09c_bool : forall b rest old, 2 <= b2n b -> decode WBool old (b :: rest) = Err EMalformedBool.
 Proof. exact bool_out_of_range. Qed.
+Print Assumptions C09c_bool.
 
 (* (d) a property identifier that MQTT v5.0 does not define (prop_type u =
    None in the specification's table 2-4: 229 values): the property maps of
@@ -68,6 +76,7 @@ Theorem C09d_maps : map_ids_defined connect_map = true /\ map_ids_defined will_m
   map_ids_defined connack_map = true /\ map_ids_defined publish_map = true /\
   map_ids_defined ack_map = true /\ map_ids_defined auth_map = true.
 Proof. exact all_maps_defined. Qed.
+Print Assumptions C09d_maps.
 Theorem C09d_unknown : forall fuel m will sm endp id s b,
   map_ids_defined m = true -> prop_type (b2n b) = None ->
   derr s = None -> (dpos s < length (ddata s))%nat -> N.of_nat (dpos s) < endp ->
@@ -109,8 +118,10 @@ Print Assumptions C09a_read_packet.
 (* the field map is the encoder's: its segments concatenate to the body *)
 Theorem C09a_segs_cover : forall t b c, seg_cut (body_segs b) c -> field_cut (fields t b) c.
 Proof. exact segs_refine. Qed.
+Print Assumptions C09a_segs_cover.
 Theorem C09a_fields_body : forall t b, concat (map f_seg (fields t b)) = e_body b.
 Proof. exact fields_body. Qed.
+Print Assumptions C09a_fields_body.
 
 (* the hypotheses are inhabited: a CONNACK with a two-byte property cut
    between identifier and value (c = 4) and inside the value (c = 5); a
@@ -187,6 +198,7 @@ Theorem C09bcd_bad_section : forall where_ okps bad, bad_section where_ okps bad
          \/ (exists a b c e r, t = n2b 11 :: a :: b :: c :: e :: r
                                /\ cont a = true /\ cont b = true /\ cont c = true /\ cont e = true)))).
 Proof. intros. reflexivity. Qed.
+Print Assumptions C09bcd_bad_section.
 
 (* inhabited: CONNACK 20 .. 00 00 | 03 25 02 .. (retain available = 2) and
    | 02 30 .. (identifier 0x30) after the property receive maximum *)
